@@ -27,8 +27,9 @@ use crate::{
         },
         sample_info::{InstanceStateKind, SampleInfo, SampleStateKind, ViewStateKind},
         status::{
-            InconsistentTopicStatus, OfferedDeadlineMissedStatus, PublicationMatchedStatus,
-            SubscriptionMatchedStatus,
+            InconsistentTopicStatus, OfferedDeadlineMissedStatus, OfferedIncompatibleQosStatus,
+            PublicationMatchedStatus, RequestedDeadlineMissedStatus,
+            RequestedIncompatibleQosStatus, SampleRejectedStatus, SubscriptionMatchedStatus,
         },
         time::{Duration, Time},
     },
@@ -461,6 +462,12 @@ pub enum WriterServiceMail {
         data_writer_handle: InstanceHandle,
         reply_sender: OneshotSender<DdsResult<OfferedDeadlineMissedStatus>>,
     },
+    GetOfferedIncompatibleQosStatus {
+        participant_handle: InstanceHandle,
+        publisher_handle: InstanceHandle,
+        data_writer_handle: InstanceHandle,
+        reply_sender: OneshotSender<DdsResult<OfferedIncompatibleQosStatus>>,
+    },
     EnableDataWriter {
         participant_handle: InstanceHandle,
         publisher_handle: InstanceHandle,
@@ -536,6 +543,24 @@ pub enum ReaderServiceMail {
         subscriber_handle: InstanceHandle,
         data_reader_handle: InstanceHandle,
         reply_sender: OneshotSender<DdsResult<SubscriptionMatchedStatus>>,
+    },
+    GetRequestedDeadlineMissedStatus {
+        participant_handle: InstanceHandle,
+        subscriber_handle: InstanceHandle,
+        data_reader_handle: InstanceHandle,
+        reply_sender: OneshotSender<DdsResult<RequestedDeadlineMissedStatus>>,
+    },
+    GetRequestedIncompatibleQosStatus {
+        participant_handle: InstanceHandle,
+        subscriber_handle: InstanceHandle,
+        data_reader_handle: InstanceHandle,
+        reply_sender: OneshotSender<DdsResult<RequestedIncompatibleQosStatus>>,
+    },
+    GetSampleRejectedStatus {
+        participant_handle: InstanceHandle,
+        subscriber_handle: InstanceHandle,
+        data_reader_handle: InstanceHandle,
+        reply_sender: OneshotSender<DdsResult<SampleRejectedStatus>>,
     },
     GetMatchedPublicationData {
         participant_handle: InstanceHandle,
